@@ -71,18 +71,28 @@ def run(ctx, mode):
         # design level: the robust invariants on the as-is interleavings, all properties under the strict environment
         ctx.tlc_model("ClientMC", "ClientMC_one_strict.cfg", workers=vlib.NCPU, heap_gb=16, timeout=2400,
                       name="Client, 1 start, all properties (environment without the K2/K3/K4 windows)")
+        if mode == "C10":
+            # the model must stay sensitive to D8: with the wait handler pooled again after a failed Start
+            # (PoolOnError = TRUE, the code before the repair) TLC has to find the panic in HandleEvent
+            r = ctx.tlc_model("ClientMC", "ClientMC_d8.cfg", workers=min(8, vlib.NCPU), heap_gb=8, timeout=900, expect_violation=True,
+                              name="Client before the D8 repair (wait handler pooled after a failed Start): NoPanic must be violated")
+            if "Invariant NoPanic is violated" not in r["out"]:
+                raise vlib.Inconclusive("ClientMC_d8.cfg: TLC no longer finds the D8 panic on the pre-repair model")
         if not quick:
+            if mode == "C10":
+                ctx.tlc_model("ClientMC", "ClientMC_d8fixed.cfg", workers=vlib.NCPU, heap_gb=24, timeout=3000,
+                              name="Client, 2 starts, environment with the K4 window, repaired Do: NoPanic, DoWaits")
             ctx.tlc_model("ClientMC", "ClientMC_two_strict.cfg", workers=vlib.NCPU, heap_gb=24, timeout=3000,
                           name="Client, 2 starts, all properties (strict environment)")
             ctx.tlc_model("ClientMC", "ClientMC_two_asis.cfg", workers=vlib.NCPU, heap_gb=24, timeout=3000,
                           name="Client, 2 starts, robust invariants on every interleaving")
             ctx.tlc_model("ClientMC", "ClientMC_two_deep.cfg", workers=vlib.NCPU, heap_gb=30, timeout=3000,
-                          name="Client, 2 starts, 2 retransmissions, 2 responses, clock 0..4, all properties (strict environment)")
+                          name="Client, 2 starts (Start/Do/Indicate, one pooled wait handler), 2 retransmissions, 2 responses, clock 0..4, all properties (strict environment)")
             if mode == "C10":
-                # the largest exhaustive run (58 M distinct states, about 14 min): once per thorough round is enough,
+                # the largest exhaustive run (96 M distinct states, 350 M transitions, about 20 min): once per thorough round is enough,
                 # it checks the invariants of all four client properties
                 ctx.tlc_model("ClientMC", "ClientMC_two_deep2.cfg", workers=vlib.NCPU, heap_gb=40, timeout=5400,
-                              name="Client, 2 starts, 2 retransmissions, 2 responses, 2 failing writes, 1 junk datagram, clock 0..4, all properties (strict environment)")
+                              name="Client, 2 starts (Start/Do, one pooled wait handler), 2 retransmissions, 2 responses, 2 failing writes, 1 junk datagram, clock 0..4, all properties (strict environment)")
         scheds = []
         for cfg, name, ma, cc, fb, smp in [
                 ("ClientMC_cover.cfg", "transition cover source: 1 start, default retransmission, 1 failing write, 1 response", 7, True, True, 4000 if quick else None),
